@@ -10,6 +10,9 @@ checks = {
    text="Random/sticky/PCT schedules plus a sweep that holds back every yield site of atp/client.go and atp/server.go singly (occurrences 1-3) on canonical session histories; a hang is decided exactly (all goroutines durably blocked, no timer pending).",
    note="Trusted: rewriter, synctest, shim mutex semantics. The peer is the SDK's own server; the harness drains signal channels as the API asks. Scheduling delays are logical: no fake time passes while a goroutine is held."),
 }
+checks["C07"] = dict(cat="fault_enumeration", ref="§7 C07", engine="server", technique="deterministic simulation with crash-point enumeration: real RunATPServer vs a scripted hostile client; EOF / read error / garbage at enumerated byte offsets of the client stream crossed with seeded schedules and step behaviours; reference-decoder model of accepted runs",
+   text="Grammar-drawn client scripts (valid and invalid messages, arbitrary CBOR, junk) against the real server with generated plugins whose steps succeed, fail, panic or are slow; base scripts are re-run with a fault at every message boundary +-1 and a stride (quick) or at every byte (thorough); the oracle counts terminal messages per run ID against what a reference decoder accepts from the bytes actually delivered, and decides hangs exactly on the fake clock.",
+   note="Trusted: rewriter, synctest, cbor library (also used by the reference decoder), the contract model of 'accepted work-start' stated in DESIGN §7 C07. A panic in a server goroutine is treated as process death. plugin.Run's os.Exit paths and real OS pipes are not simulated.")
 not_yet = {
 }
 na = {
@@ -46,6 +49,7 @@ m = {
    "add_only": True,
  },
  "engines": [
+   {"name": "server", "path": "harness/engine_server.go", "serves_properties": ["C07"], "kind_free_text": "real atp server vs scripted client with byte-offset fault injection on the client stream"},
    {"name": "session", "path": "harness/session.go", "serves_properties": ["C05", "C06"], "kind_free_text": "real atp client <-> real atp server over simulated pipes under the seeded scheduler (zzsimrt) inside a testing/synctest bubble"},
  ],
  "checks": [],
